@@ -24,7 +24,9 @@ func GenOverlap(t *rapid.T) *OverlapCase {
 	c := &OverlapCase{ViaAny: rapid.IntRange(0, 2).Draw(t, "viaAny") == 0, Ambient: genAmbient(t), Rounds: 5, Procs: rapid.SampledFrom([]int{1, 2, 4, 16}).Draw(t, "procs")}
 	nh := rapid.IntRange(1, 3).Draw(t, "nh")
 	for i := 0; i < nh; i++ {
-		c.Handlers = append(c.Handlers, genH(t))
+		h := genH(t)
+		h.PanicEvery = rapid.SampledFrom([]int{0, 0, 0, 2, 3, 5}).Draw(t, "panicEvery")
+		c.Handlers = append(c.Handlers, h)
 	}
 	if rapid.IntRange(0, 2).Draw(t, "cancels") == 0 {
 		c.CancelEvery = rapid.IntRange(1, 4).Draw(t, "cancelEvery")
